@@ -180,6 +180,23 @@ def c17(tier):
     for _ in range(nproc):
         p = subprocess.run([exe, "expand"], input=(e1.SEP.join(rep_decls) + e1.SEP).encode(), stdout=subprocess.PIPE, stderr=subprocess.PIPE, env=ENV)
         outs.append(p.stdout)
+    # the same declarations expanded after DIFFERENT histories (reverse order, each alone): state kept between invocations of
+    # the derive inside one compiler process must not reach the output
+    hist = texts[:: max(1, len(texts) // 40)][:40] + rep_decls[-1:]
+    fwd = e1.expand_many(hist)
+    rev = e1.expand_many(hist[::-1])[::-1]
+    alone = [e1.expand_many([t])[0] for t in hist[:8]]
+    res.extra["history_replication"] = {"declarations": len(hist), "orders": ["forward", "reverse", "alone (first 8)"]}
+    for i, t in enumerate(hist):
+        variants = [fwd[i], rev[i]] + ([alone[i]] if i < len(alone) else [])
+        res.transitions += len(variants)
+        if len(set(variants)) != 1:
+            a, b = variants[0], next(v for v in variants if v != variants[0])
+            res.violation({"kind": "expansion-depends-on-earlier-invocations", "declaration": t[:300]},
+                          {"a": a[1][:800], "b": b[1][:800], "declaration_full": t,
+                           "note": "the same declaration expands differently depending on which declarations the process expanded before"},
+                          {"repro.rs": "// expansion depends on the derive's earlier invocations in the same process:\n// %s\nfn main() {}\n" % t.replace("\n", " ")})
+            break
     res.extra["fresh_process_replication"] = {"processes": nproc, "declarations": len(rep_decls), "label": "sampling (supplementary, not the deciding technique)"}
     if len(set(outs)) != 1:
         a = outs[0].split(b"\n\x1e\n")
@@ -221,7 +238,8 @@ def c18(tier):
     maxn = 3 if tier == "quick" else 4
     windows = [[-3, -2, -1, 0, 1, 2], [0, 1, 2, 3, 4, 5]] if tier == "thorough" else [[-2, -1, 0, 1, 2]]
     cfgs = [("t", catalogue.full_config(False, {"as_str": "table", "from_str": "table", "FromStr": "table", "iter": "table"})),
-            ("m", catalogue.full_config(False, {"as_str": "match", "from_str": "match", "FromStr": "match", "iter": "next_and_back"}))]
+            ("m", catalogue.full_config(False, {"as_str": "match", "from_str": "match", "FromStr": "match", "iter": "next_and_back"})),
+            ("a", catalogue.full_config(False, {}))]     # auto: range mode on gapless sets, table_inline / next_and_back otherwise
     subs = []
     sets = []
     for w in windows:
@@ -369,6 +387,11 @@ def c16(tier):
     if tier == "thorough":
         enums_ += [make_decl("u64", [9, 1, 2], salt=3), make_decl("i64", [enums.I64_MIN, -1, 0, enums.I64_MAX], salt=7),
                    make_decl("u16", [0, 1, 2, 700, 701, 65535], salt=9), make_decl("usize", [7], salt=1)]
+    # the enum's own name next to the generics / local names of the generated code
+    for nm in ("B", "F", "Item", "T"):
+        dd = make_decl("i8", [4, 6, 3, 5] if nm in ("B", "Item") else [-5, 3, -10, -4], salt=3)
+        dd.name = nm
+        enums_.append(dd)
     scopes, singles = shadow_scopes(tier)
     bounds = dict(x1_depth=1, x2_extra=1, x2_cap=5, range_x1_depth=1, range_x2_extra=0)
     subs = []
